@@ -19,15 +19,16 @@ Definition w_f7 : list op :=
 Definition w_f8 : list op :=
   [OCreate 100 1 1 (10 * U) 10; ORoot; ORemove 100; OFinalise; OCopy].
 
-(* F9 (inplace-update-then-revert): validatorUpdateChange holds newVal by pointer.  The
-   pattern of staking.teDelegationSub - UpdateDelegation stores newVal, then the handler
-   sets newVal.Status in place and calls UpdateValidator(newVal, copy) - changes the object
-   the first journal entry points at; a revert across both subtracts the offline record
-   from the statistics where the online one had been added *)
+(* former F9 (inplace-update-then-revert, repaired by 7813a3d): validatorUpdateChange holds newVal
+   by pointer and its undo used to read it.  The pattern of staking.teDelegationSub -
+   UpdateDelegation stores newVal, then the handler sets newVal.Status in place and calls
+   UpdateValidator(newVal, copy) - changes the object the first journal entry points at; a
+   revert across both used to subtract the offline record where the online one had been
+   added.  The undo now subtracts the stored record: a regression history *)
 Definition w_f9 : list op :=
   [OFund 1; OCreate 100 1 1 (10 * U) 10; ODelegate 1 100 (3 * U); ORoot; OSnapshot;
    ODelegate 1 100 (- (3 * U)); OUpdateIn 100 (mkU 1 0 (10 * U) 10 (10 * U) 10 0 0 0); ORevert 0].
-(* the same in-place status change without a revert across it (later revisions stay valid) *)
+(* in-place status and rewards changes with a later snapshot/deposit/revert *)
 Definition ex_inplace : list op :=
   [OFund 1; OCreate 100 1 1 (10 * U) 10; ODelegate 1 100 (3 * U); ORoot; OSnapshot;
    ODelegate 1 100 (- (3 * U)); OUpdateIn 100 (mkU 1 0 (10 * U) 10 (10 * U) 10 0 0 0);
@@ -64,13 +65,18 @@ Qed.
 Lemma refuted_f5 : refutes w_f5. Proof. apply refutes_b_spec. vm_compute. reflexivity. Qed.
 Lemma refuted_f7 : refutes w_f7. Proof. apply refutes_b_spec. vm_compute. reflexivity. Qed.
 Lemma refuted_f8 : refutes w_f8. Proof. apply refutes_b_spec. vm_compute. reflexivity. Qed.
-Lemma refuted_f9 : refutes w_f9. Proof. apply refutes_b_spec. vm_compute. reflexivity. Qed.
 
 Definition holds_b (w : list op) : bool :=
   safe w && match run init w with Some s => inv_all s | None => false end.
 Lemma repaired_f2 : holds_b r_f2 = true. Proof. vm_compute. reflexivity. Qed.
 Lemma repaired_f3 : holds_b r_f3 = true. Proof. vm_compute. reflexivity. Qed.
 Lemma repaired_f6 : holds_b r_f6 = true. Proof. vm_compute. reflexivity. Qed.
+
+Lemma repaired_f9 : holds_b w_f9 = true. Proof. vm_compute. reflexivity. Qed.
+(* the model variant of the code before 7813a3d (what the harness compares with when it finds that
+   behaviour in the tree) breaks the property on the same history *)
+Lemma prerepair_f9 : match run_old init w_f9 with Some s => inv_all s = false | None => False end.
+Proof. vm_compute. reflexivity. Qed.
 
 Lemma inplace_holds : holds_b ex_inplace = true /\
   match run init ex_inplace with
